@@ -74,8 +74,19 @@ def check(world, ob, timeout_ms=5000, depth=2, use_cvc5=True, cvc5_timeout_s=10,
             for a in ax1:
                 s1.add(a)
             if timed_check(s1, min(timeout_ms, 3000)) == z3.unsat:
-                return dict(result='proved', backend=f'z3-{z3.get_version_string()}', time=round(time.time() - t0, 4), model=None, z3model=None,
-                            n_axioms=len(ax1), second=None)
+                second = None
+                res1, backend1 = 'proved', f'z3-{z3.get_version_string()}'
+                if os.environ.get('PYVC_SECOND_OPINION') == '1' and os.path.exists(CVC5):
+                    try:
+                        second = run_cvc5(s1.to_smt2(), 10)
+                    except Exception:
+                        second = 'unknown'
+                    if second == 'sat':
+                        res1, backend1 = 'unknown', 'z3 says unsat, cvc5 says sat'
+                    elif second not in ('unsat', 'unknown'):
+                        second = 'not-parsed'
+                return dict(result=res1, backend=backend1, time=round(time.time() - t0, 4), model=None, z3model=None,
+                            n_axioms=len(ax1), second=second)
         except Exception:
             pass
     for k_, (tmo, seed) in enumerate(plan):
@@ -195,6 +206,8 @@ def check(world, ob, timeout_ms=5000, depth=2, use_cvc5=True, cvc5_timeout_s=10,
 
 def run_cvc5(smt2, timeout_s):
     text = smt2
+    # z3 5.x spells the int/bit-vector conversions int_to_bv / ubv_to_int; cvc5 1.0.3 knows them as int2bv / bv2nat
+    text = text.replace('(_ int_to_bv ', '(_ int2bv ').replace('(ubv_to_int ', '(bv2nat ').replace('(bv2int ', '(bv2nat ')
     if '(set-logic' not in text:
         text = '(set-logic ALL)\n' + text
     with tempfile.NamedTemporaryFile('w', suffix='.smt2', delete=False) as f:
